@@ -28,10 +28,14 @@ def main():
     ok, out = vlib.coq_make([t[:-2] + ".vo" for t in tops])
     print(out[-3000:])
     if not ok:
-        print("SETUP: Coq development failed to build")
-        return 1
+        # not fatal: every check rebuilds its own closure and reports a proof that does not build as a violation of
+        # *its* property; one slice must not take the checks of all the other properties down with it
+        print("SETUP: parts of the Coq development failed to build (the checks resting on them will report it)")
     for s in sorted(used_slices):
-        vlib.build_model(s)
+        try:
+            vlib.build_model(s)
+        except Exception as e:      # noqa: BLE001
+            print("SETUP: model runner of slice %s does not build: %s" % (s, str(e)[-300:]))
     for k in kinds:
         vlib.build_lib(k)
     drivers = [os.path.basename(p)[:-2] for p in glob.glob(os.path.join(vlib.IMPL, "*.c"))]
